@@ -69,6 +69,42 @@ def run(pid, tier, repo, build, seed):
         if pid == 'C01':
             ok, info = g_init_smack(repo)
             add(ok, info, 'ground/init-smack', 'proto_init()/http_init() complete without panic')
+        if pid in ('C01', 'C10', 'C11', 'C13'):
+            d = R.Driver(repo)
+            try:
+                tp = d.dump_smack('proto'); th = d.dump_smack('http')
+            finally:
+                d.close()
+            for nm, t in (('proto', tp), ('http', th)):
+                bad = smack_wf(t)
+                add(not bad, {'obligation': 'ground/smack-wf/' + nm, 'violated': bad, 'rows': t['state_count'], 'symbols': t['symbol_count']},
+                    'ground/smack-wf/' + nm, 'Smack::wf() holds for the compiled %s automaton: %s' % (nm, bad))
+            ids = sorted(set(i for m in tp['matches'][:tp['state_count']] for i in m['ids']))
+            okp = bool(ids) and min(ids) >= 1 and max(ids) <= 8 and tp['match_limit'] > 0
+            add(okp, {'obligation': 'ground/proto-table-facts', 'ids': ids, 'match_limit': tp['match_limit']}, 'ground/proto-table-facts',
+                'axiom_proto_table: ids of PROTO_SMACK are within 1..8 and BASE_STATE is a resting state')
+            if pid == 'C10':
+                sigs = signature_set(repo)
+                st, disc = product_explore(tp, sigs)
+                res['states'] = st['states']; res['transitions'] = st['transitions']
+                keys = {}
+                for x in disc:
+                    keys.setdefault(canonical(x, sigs), x)
+                # one obligation per explored product transition class; discrepancies grouped by canonical key
+                res['obligations'] += 1; res['details'].append({'obligation': 'ground/smack-language', 'product': st, 'signatures': len(sigs),
+                                                                'discrepancies': len(disc), 'classes': sorted(keys)})
+                if not disc:
+                    res['discharged'] += 1
+                for k, x in sorted(keys.items()):
+                    name = 'ground/smack-language/' + k
+                    res['violations'].append({'obligation': name, 'unit': 'ground', 'fn': name, 'kind': 'ground',
+                        'message': 'compiled PROTO_SMACK differs from the signature set: ' + k, 'tags': [pid],
+                        'clause': 'forall byte strings s: first match of the compiled table on s == first signature completed by s',
+                        'clause_at': None, 'site': 'src/smack/smack.rs (fixup_wildcards) / src/proto/mod.rs (proto_init)', 'site_text': '',
+                        'spans': [], 'rendered': 'witness (hex): %s  kind=%s signature=%s' % (x['witness'].hex(), x['kind'], x['sig']),
+                        'witness': {'payload_hex': x['witness'].hex(), 'kind': x['kind'], 'signature': x['sig']}})
+                if disc:
+                    res['obligations'] += len(keys) - 1
         if pid in ('C07', 'C08'):
             rep, info = g_cookie_collision(repo)
             # the obligation "distinct flows have distinct cookies" is FALSE when the witness reproduces
@@ -96,3 +132,158 @@ def replay(pid, path, repo, build):
         return 1 if rep else 0
     print(json.dumps(w, indent=1))
     return 2
+
+# ----------------------------------------------------------------------------- smack tables
+def smack_wf(t):
+    """The predicate Smack::wf() of contracts/smack__smack.vspec evaluated on a dumped table.  Returns list of
+    violated conjuncts (empty = well-formed)."""
+    bad = []
+    rows = t['state_count']; W = 1 << t['row_shift']; lim = t['match_limit']
+    c2s = t['char_to_symbol']; tr = t['transitions']; mm = t['matches']
+    if len(c2s) != 258: bad.append('char_to_symbol.len() != 258')
+    if t['row_shift'] > 16: bad.append('row_shift > 16')
+    if not (0 < rows < 0x1000000): bad.append('rows out of range')
+    if len(mm) < rows: bad.append('m_match shorter than the state table')
+    if len(tr) != rows * W: bad.append('transitions.len() != rows * width')
+    if any(c >= W for c in c2s): bad.append('symbol >= width')
+    if any(x >= rows for x in tr): bad.append('transition target >= rows')
+    if lim > rows: bad.append('m_match_limit > rows')
+    for r in range(min(rows, len(mm))):
+        m = mm[r]
+        if m['count'] != len(m['ids']) or m['count'] >= 0xff: bad.append('row %d: count/ids mismatch' % r); break
+        if r < lim and m['count'] != 0: bad.append('row %d below the match limit has matches' % r); break
+        if r >= lim and m['count'] == 0: bad.append('row %d above the match limit has no match' % r); break
+        if any(i >= 0xFFFF for i in m['ids']): bad.append('row %d: id out of range' % r); break
+    return bad
+
+def rust_bytes_literal(src, name):
+    """Decode `const NAME: &[u8; N] = b"...";` from Rust source text."""
+    import re
+    mo = re.search(r'const\s+%s\s*:[^=]*=\s*b"' % re.escape(name), src)
+    if not mo: raise KeyError(name)
+    i = mo.end(); out = bytearray()
+    while src[i] != '"':
+        c = src[i]
+        if c == '\\':
+            n = src[i + 1]
+            if n == 'x': out.append(int(src[i + 2:i + 4], 16)); i += 4
+            elif n == 'n': out.append(10); i += 2
+            elif n == 'r': out.append(13); i += 2
+            elif n == 't': out.append(9); i += 2
+            elif n == '0': out.append(0); i += 2
+            elif n == '\\': out.append(92); i += 2
+            elif n == '"': out.append(34); i += 2
+            elif n == "'": out.append(39); i += 2
+            elif n == '\n':
+                i += 2
+                while src[i] in ' \t\n': i += 1
+            else: raise ValueError('escape \\' + n)
+        else:
+            out += c.encode('utf-8'); i += 1
+    return bytes(out)
+
+def signature_set(repo):
+    """The published signature set, read from the add_pattern calls of proto_init() and the pattern constants
+    in the current tree: list of dicts {name, id, pattern(bytes), begin, end, wild}."""
+    import re
+    src = open(os.path.join(repo, 'src/proto/mod.rs')).read()
+    consts = dict((m.group(1), int(m.group(2))) for m in re.finditer(r'const (PROTO_\w+): usize = (\d+);', src))
+    body = src[src.index('fn proto_init()'):]
+    body = body[:body.index('\n}\n')]
+    files = {}
+    for f in ('http', 'stun', 'ssh', 'ghost', 'rpc', 'smb'):
+        files[f] = open(os.path.join(repo, 'src/proto/%s.rs' % f)).read()
+    sigs = []
+    # HTTP verbs
+    mo = re.search(r'pub const HTTP_VERBS: \[&str; \d+\] = \[(.*?)\];', files['http'], re.S)
+    verbs = re.findall(r'"([A-Z]+)"', mo.group(1))
+    mo = re.search(r'for \(_, v\) in HTTP_VERBS.*?format!\("([^"]*)", v\)\.as_bytes\(\),\s*(\w+),\s*([^\)]*?),?\s*\);', body, re.S)
+    for v in verbs:
+        sigs.append({'name': 'HTTP:' + v, 'id': consts[mo.group(2)], 'pattern': mo.group(1).replace('{}', v).encode(), 'flags': mo.group(3)})
+    for mo in re.finditer(r'smack\.add_pattern\(\s*([A-Z0-9_]+),\s*(\w+),\s*([^;]*?),?\s*\);', body, re.S):
+        cname = mo.group(1)
+        pat = None
+        for f, txt in files.items():
+            try:
+                pat = rust_bytes_literal(txt, cname); break
+            except KeyError:
+                pass
+        if pat is None: raise KeyError(cname)
+        sigs.append({'name': cname, 'id': consts[mo.group(2)], 'pattern': pat, 'flags': mo.group(3)})
+    for s in sigs:
+        s['begin'] = 'ANCHOR_BEGIN' in s['flags']; s['end'] = 'ANCHOR_END' in s['flags']; s['wild'] = 'WILDCARDS' in s['flags']
+    return sigs
+
+def product_explore(t, sigs):
+    """Exhaustive exploration of (compiled table row) x (reference signature automaton) over byte-class
+    representatives.  Returns (stats, discrepancies)."""
+    from collections import deque
+    rows = t['state_count']; sh = t['row_shift']; lim = t['match_limit']
+    c2s = t['char_to_symbol']; tr = t['transitions']; mm = t['matches']
+    step = lambda row, sym: tr[(row << sh) + sym]
+    lits = set()
+    for s in sigs:
+        for k, b in enumerate(s['pattern']):
+            if not (s['wild'] and b == ord('*')): lits.add(b)
+    reps = sorted(lits)
+    seen_sym = set(c2s[b] for b in reps)
+    for b in range(256):
+        if b not in lits and c2s[b] not in seen_sym or (b not in lits and not any(x not in lits for x in reps)):
+            reps.append(b); seen_sym.add(c2s[b])
+    if not any(b not in lits for b in reps):
+        for b in range(256):
+            if b not in lits: reps.append(b); break
+    def matches_at(s, k, b):
+        p = s['pattern']
+        return k < len(p) and ((s['wild'] and p[k] == ord('*')) or p[k] == b)
+    start = (0, 0, frozenset(range(len(sigs))))
+    seen = {start: b''}
+    q = deque([start])
+    disc = []
+    trans = 0
+    while q:
+        st = q.popleft()
+        row, n, alive = st
+        path = seen[st]
+        # --- end-of-input behaviour (UDP): feed END
+        r2 = step(row, c2s[257])
+        end_ids = list(mm[r2]['ids']) if mm[r2]['count'] else []
+        exp_end = [sigs[i] for i in alive if sigs[i]['end'] and len(sigs[i]['pattern']) == n]
+        got = end_ids[-1] if end_ids else None
+        if exp_end and got not in [s['id'] for s in exp_end]:
+            disc.append({'kind': 'end-missing', 'sig': exp_end[0]['name'], 'witness': path})
+        if not exp_end and got is not None:
+            disc.append({'kind': 'end-extra', 'sig': 'id%d' % got, 'witness': path})
+        for b in reps:
+            trans += 1
+            row2 = step(row, c2s[b])
+            alive2 = frozenset(i for i in alive if matches_at(sigs[i], n, b))
+            completed = [sigs[i] for i in alive2 if len(sigs[i]['pattern']) == n + 1 and not sigs[i]['end']]
+            m_ids = list(mm[row2]['ids']) if row2 >= lim else []
+            got = m_ids[-1] if m_ids else None
+            w = path + bytes([b])
+            if completed:
+                if got not in [s['id'] for s in completed]:
+                    disc.append({'kind': 'false-negative' if got is None else 'wrong-id', 'sig': completed[0]['name'], 'witness': w})
+                continue        # decision point reached on the reference side
+            if got is not None:
+                disc.append({'kind': 'false-positive', 'sig': 'id%d' % got, 'witness': w})
+                continue
+            n2 = n + 1 if alive2 else 0
+            nxt = (row2, n2, alive2)
+            if nxt not in seen:
+                seen[nxt] = w
+                q.append(nxt)
+    return {'states': len(seen), 'transitions': trans, 'representatives': len(reps)}, disc
+
+def canonical(d, sigs):
+    """(kind, signature, longest literal prefix of ANOTHER signature that the witness starts with)"""
+    w = d['witness']
+    best = b''
+    for s in sigs:
+        if s['name'] == d['sig']: continue
+        p = s['pattern']; k = 0
+        while k < len(p) and k < len(w) and not (s['wild'] and p[k] == ord('*')) and p[k] == w[k]:
+            k += 1
+        if k > len(best): best = bytes(w[:k])
+    return '%s/%s/%s' % (d['kind'], d['sig'], best.hex())
